@@ -76,7 +76,7 @@ func init() {
 		Doc:      "no process exit under an open transaction: no function outside the standard library (whose only such call, log.Fatalf in net/http's idle-connection invariant check, is not a csvq decision) that is reachable from (*Processor).Execute calls os.Exit, syscall.Exit, runtime.Goexit, log.Fatal/Fatalf/Fatalln or (*log.Logger).Fatal*: the deferred rollback always gets to run",
 		Controls: []string{"CtlTxn7ExitInStatement"},
 		Run:      ruleTxn7})
-	Register(&Rule{ID: "R-TXN-8", Props: []string{"C01"}, Floor: 7,
+	Register(&Rule{ID: "R-TXN-8", Props: []string{"C01", "C10"}, Floor: 7,
 		Doc:      "what is encoded is what is swapped: in (*Transaction).Commit every encode — a direct EncodeView call, or a call of a per-view helper shown to encode one view and to return that view's FileInfo on every success return — writes through the FileForUpdate descriptor of the handler of the view it encodes; after a successful encode every path appends that view's FileInfo to a slice before the next encode, a swap or a return that can report success; the slices whose elements' handlers are swapped (Container.Commit in a loop over the whole slice) are exactly those slices, each built only by one make and those appends; the encoded views derive from both maps returned by UncommittedFiles; after a successful swap the same FileInfo is Unset before the next swap or success return. Helper extraction is followed for two levels on the encode side (per-view helper; helper that encodes the views of its map parameter and returns the list) and one level on the swap side (helper that swaps and Unsets every element of its slice parameter); anything else is reported as undecided",
 		Controls: []string{"CtlTxn8SwapsOtherList"},
 		Run:      ruleTxn8})
